@@ -60,18 +60,7 @@ def run(chk, repo, tier):
 
     from .common import self_delegation_forwards
     self_delegation_forwards(chk, repo, 'C15-e', [f'{SPEC}.bin'])
-    # `sample` is overridden by subclasses with another positional order (Blackbody.sample(wave, waveunit, ...)): inside the
-    # class its options are passed by keyword
-    pos_calls = []
-    for g in repo.all_functions():
-        if g.module.name != 'radiometry':
-            continue
-        for n_ in ast.walk(g.node):
-            if isinstance(n_, ast.Call) and isinstance(n_.func, ast.Attribute) and n_.func.attr == 'sample' and len(n_.args) > 1 \
-                    and isinstance(n_.func.value, ast.Name) and n_.func.value.id in ('self', 's1', 's2', 'other', 'spectrum', 'qe'):
-                pos_calls.append(f'{g.key} at {g.loc(n_)}: `{g.module.segment(n_)[:60]}`')
-    chk.ob('C15-e', 'B3-binding', SPEC, 'options of sample() are passed by keyword', not pos_calls,
-           '; '.join(pos_calls[:2]) + (': a Blackbody takes the second positional argument as the wavelength unit' if pos_calls else ''), '')
+    sample_keyword_rule(chk, repo, 'C15-e')
     cls = repo.cls(SPEC)
     # ---------------------------------------------------------------- C15-a
     setter = cls.find_setter('wave')
@@ -186,6 +175,12 @@ def run(chk, repo, tier):
                 okc = okc and _selection_of_self(Poly.atom(wa[1]), 'wave') and _selection_of_self(Poly.atom(va[1]), 'value')
         if len(evs) % 2:
             okb, detb = False, 'odd number of wave/value stores on a path'
+    # the two bounds are applied independently: when both fall inside the grid both ends are cut in one call
+    most = max([len([e for e in p.events if e.kind == 'write' and e.data.get('how') == 'attrstore' and e.target == SELF
+                     and e.data.get('attr') == 'wave']) for p in pp if p.status != 'raise'] or [0])
+    chk.ob('C15-d', 'D-guard', f.key, 'a crop with both bounds inside the grid cuts both ends', most >= 2 if n_both else None,
+           '' if most >= 2 else 'no path applies the lower and the upper cut: the upper bound is skipped whenever the lower one removed samples',
+           f.loc())
     chk.ob('C15-b', 'D-pairing', f.key, 'wave and value deleted with the same index set', okb and n_both > 0, detb, f.loc())
     chk.ob('C15-c', 'D-selection', f.key, 'retained samples are a pure selection of the original arrays', okc and n_both > 0, '', f.loc())
     lo_ok = any(a[1] == 'lt' and _selection_of_self(a[2][0], 'wave') and a[2][1] == S('min_wave') for a in cmp_seen) or \
@@ -555,6 +550,21 @@ def run(chk, repo, tier):
             okn = okn and p.ret == form[0]
     chk.ob('C15-e', 'N-identity', fb.key, 'without power preservation the quadrature values are returned as they are',
            okn if (not undn or not okn) else None, 'bins construction not recognised' if undn else '', fb.loc())
+
+
+def sample_keyword_rule(chk, repo, clause):
+    # `sample` is overridden by subclasses with another positional order (Blackbody.sample(wave, waveunit, ...)): inside the
+    # class its options are passed by keyword
+    pos_calls = []
+    for g in repo.all_functions():
+        if g.module.name != 'radiometry':
+            continue
+        for n_ in ast.walk(g.node):
+            if isinstance(n_, ast.Call) and isinstance(n_.func, ast.Attribute) and n_.func.attr == 'sample' and len(n_.args) > 1 \
+                    and isinstance(n_.func.value, ast.Name) and n_.func.value.id in ('self', 's1', 's2', 'other', 'spectrum', 'qe'):
+                pos_calls.append(f'{g.key} at {g.loc(n_)}: `{g.module.segment(n_)[:60]}`')
+    chk.ob(clause, 'B3-binding', SPEC, 'options of sample() are passed by keyword', not pos_calls,
+           '; '.join(pos_calls[:2]) + (': a Blackbody takes the second positional argument as the wavelength unit' if pos_calls else ''), '')
 
 
 def spectrum_storage_rules(chk, repo, clause):
